@@ -142,6 +142,26 @@ fn same_rotation<S: Sc>(case: &Case, ck: &mut Ck<S>) {
         m3(Matrix3::from(Basis3::from(pq))),
         m3(Matrix3::from(Basis3::from(qp) * b3q)),
     );
+    {
+        // the same composition through the Transform trait (concat, concat_self) and acting on points
+        let (a4, b4) = (Matrix4::from(qp), m4q);
+        let mut cs = a4;
+        cgmath::Transform::<cgmath::Point3<S>>::concat_self(&mut cs, &b4);
+        ck.eqm("M4(p).concat_self(M4(q)) = M4(pq)", m4(cs), m4(Matrix4::from(pq)));
+        ck.eqm("M4(p).concat(M4(q)) = M4(pq)", m4(cgmath::Transform::<cgmath::Point3<S>>::concat(&a4, &b4)), m4(Matrix4::from(pq)));
+        let mut cs = Matrix3::from(qp);
+        cgmath::Transform::<cgmath::Point3<S>>::concat_self(&mut cs, &m3q);
+        ck.eqm("M3(p).concat_self(M3(q)) = M3(pq)", m3(cs), m3(Matrix3::from(pq)));
+        let pt = cgmath::Point3::new(v[0], v[1], v[2]);
+        let rp = qq.rotate_point(pt);
+        ck.eqv("q.rotate_point(p) = (q*v)", [rp.x, rp.y, rp.z], v3(r));
+        let tp = cgmath::Transform::<cgmath::Point3<S>>::transform_point(&m3q, pt);
+        ck.eqv("Matrix3::from(q).transform_point(p) = q*v", [tp.x, tp.y, tp.z], v3(r));
+        let tp = cgmath::Transform::<cgmath::Point3<S>>::transform_point(&m4q, pt);
+        ck.eqv("Matrix4::from(q).transform_point(p) = q*v", [tp.x, tp.y, tp.z], v3(r));
+        let bp = b3q.rotate_point(pt);
+        ck.eqv("Basis3::from(q).rotate_point(p) = q*v", [bp.x, bp.y, bp.z], v3(r));
+    }
     // back to a quaternion: q or -q
     pm_eq(ck, "Quaternion::from(Matrix3::from(q))", qt(Quaternion::from(m3q)), q);
     pm_eq(ck, "Quaternion::from(Basis3::from(q))", qt(Quaternion::from(b3q)), q);
